@@ -95,7 +95,7 @@ func sext64(v uint64, w int) int64 {
 type Builder struct {
 	parent *Builder
 	tab    map[string]*Term
-	nextID int
+	ctr    *int // id counter shared by a base builder and the per-path builders derived from it
 	True   *Term
 	False  *Term
 }
@@ -103,10 +103,11 @@ type Builder struct {
 func NewBuilder(parent *Builder) *Builder {
 	b := &Builder{parent: parent, tab: map[string]*Term{}}
 	if parent != nil {
-		b.nextID = parent.nextID
+		b.ctr = parent.ctr
 		b.True, b.False = parent.True, parent.False
 	} else {
-		b.nextID = 1
+		n := 1
+		b.ctr = &n
 		b.True = b.mk(&Term{Op: OpConst, W: 0, Val: 1})
 		b.False = b.mk(&Term{Op: OpConst, W: 0, Val: 0})
 	}
@@ -129,8 +130,8 @@ func (b *Builder) mk(t *Term) *Term {
 			return x
 		}
 	}
-	t.id = b.nextID
-	b.nextID++
+	t.id = *b.ctr
+	*b.ctr++
 	b.tab[k] = t
 	return t
 }
